@@ -13,7 +13,7 @@ def _racks(nodes, ring):
     owners = {e.rsplit(".", 1)[1] for e in ring.split(",")} if ring != "-" else set()
     racks = {}
     for n in nodes.split(","):
-        i, d, r = n.split(".")
+        i, d, r = n.split(".")[:3]
         if d != "_" and i in owners:
             racks.setdefault(d, set()).add(r)
     return {d: len(v) for d, v in racks.items()}
@@ -24,7 +24,7 @@ def _paths(lines):
     cache = {}
     for ln in lines:
         f = ln.split(" ")
-        if len(f) < 7 or f[4][0] != "N":
+        if f[0] != "Q" or len(f) < 7 or f[4][0] != "N":
             continue
         key = (f[1], f[2])
         if key not in cache:
@@ -32,7 +32,7 @@ def _paths(lines):
             mixed = False
             per = {}
             for n in f[1].split(","):
-                _, d, r = n.split(".")
+                _, d, r = n.split(".")[:3]
                 per.setdefault(d, set()).add(r == "_")
             mixed = any(len(v) == 2 for d, v in per.items() if d != "_")
             cache[key] = (racks, mixed)
@@ -58,8 +58,26 @@ def _paths(lines):
                 c["nts_between_rack_count_and_stored_rf"] += 1
     return c
 
+def _kinds(lines):
+    """tablet-backed cases (non-empty ones) and Q cases that observed a non-zero shard"""
+    t = tne = shard = 0
+    for ln in lines:
+        if ln.startswith("T "):
+            t += 1
+            tne += ln.split("|")[1].split()[0] != "0"
+        elif ln.startswith("Q "):
+            o = ln.split("|")[1].split()
+            shard += len(o) > 9 and any(x not in ("0", "-") for x in o[9].split(","))
+    return {"tablet_set_cases": t, "tablet_set_cases_nonempty": tne, "token_ring_cases_with_a_nonzero_shard": shard}
+
 def _post(lines, verdicts):
     out = []
+    if len(lines) >= 20000:
+        k = _kinds(lines)
+        for key, floor in (("tablet_set_cases", min(len(lines) // 20, 30000)), ("tablet_set_cases_nonempty", min(len(lines) // 100, 8000)),
+                           ("token_ring_cases_with_a_nonzero_shard", len(lines) // 10)):
+            if k[key] < floor:
+                out.append(("diff", lines[0], f"diff generator floor: {key}={k[key]} < {floor}"))
     member_only = sum(1 for ln in lines if " M:" in ln.split("|", 1)[-1])
     if member_only > max(5, len(lines) // 1000):
         out.append(("diff", lines[0], f"diff choose index not scripted on {member_only} lines (rand calibration failed): choose checked by membership only"))
@@ -78,14 +96,14 @@ def _extra(lines, verdicts):
     rings = set()
     for ln in lines:
         f = ln.split(" ")
-        if len(f) > 6:
+        if f[0] == "Q" and len(f) > 6:
             strat[f[4][0]] = strat.get(f[4][0], 0) + 1
             restricted += f[5] != "_"
             rings.add((f[1], f[2], f[3]))
             dup += _dup(ln)
     paths = _paths(lines)
     member_only = sum(1 for ln in lines if " M:" in ln.split("|", 1)[-1])
-    return {"nts_lookup_paths": paths, "choose_membership_only_lines": member_only,
+    return {**_kinds(lines), "nts_lookup_paths": paths, "choose_membership_only_lines": member_only,
             "choose_exact_index_lines": len(lines) - member_only,
             "query_strategy_kinds": strat, "datacenter_restricted_queries": restricted,
             "distinct_ring_and_precomputation_sets": len(rings), "queries_on_rings_with_a_repeated_token": dup}
@@ -103,10 +121,10 @@ SPEC = {
              "0..4 registered (precomputed) keyspace strategies with RF 0..nodes+2 incl. datacenters absent from the ring "
              "and ring datacenters absent from the strategy; queries = registered strategies, RF variations of them and fresh "
              "ones x {unrestricted, every ring datacenter, absent datacenters} x every ring token, token-1, token+1 and the "
-             "extremes (quick tier: 10 token points per ring sampled, thorough: 120, restricted queries sampled 1 in 3). One line = one "
+             "extremes (quick tier: 10 token points per ring sampled, thorough: 120, restricted queries sampled 1 in 3). Kind Q: one line = one "
              "(ring, precomputed set, strategy, restriction, token) with len, into_iter, nth(0..len+1), choose for every "
-             "scripted index, choose_filtered, into_replicas_ordered, get_token_endpoints, three interleavings of next()/nth(n) and the answer of a ClusterState "
-             "built without keyspaces. non-trivial = ring not empty; distinct = distinct case lines"),
+             "scripted index, choose_filtered, into_replicas_ordered, get_token_endpoints, three interleavings of next()/nth(n) with size_hint() before and after every operation, the shards yielded (nodes with and without sharder) and the answer of a ClusterState "
+             "built without keyspaces. Kind T (per topology): 1..4 tablets learnt through the real update_tablets (overlapping ones, unknown hosts), queries x {unrestricted, ring datacenters, absent datacenter} x tokens inside / at the borders of / between tablets: len, into_iter, nth, choose, ordered view and one next/nth interleaving with size_hint, all with the tablets' shards. non-trivial = ring not empty; distinct = distinct case lines"),
     "nontrivial": lambda ln: " - " not in ln.split("|")[0][:40] and len(ln.split(" ")) > 6 and ln.split(" ")[2] != "-",
     "trusted_base": [
         "spec_simple / spec_nts_dc / spec_nts are the placement rules transcribed from the property text (SimpleStrategy: first RF distinct nodes clockwise; NTS: per datacenter, rack new or repeats allowed, until min(RF, nodes))",
